@@ -251,7 +251,7 @@ class WellRandomizer:
 
         input_wells = numpy.array(wells)
         wells_shape = input_wells.shape
-        randomized_output_wells = [self.lookup.get(well) for well in input_wells]
+        randomized_output_wells = [self.lookup.get(well) for well in input_wells.flatten()]
 
         return numpy.array(randomized_output_wells).reshape(wells_shape)
 
@@ -270,6 +270,6 @@ class WellRandomizer:
         """
         input_wells = numpy.array(wells)
         wells_shape = input_wells.shape
-        derandomized_output_wells = [self.lookup_reverse.get(well) for well in input_wells]
+        derandomized_output_wells = [self.lookup_reverse.get(well) for well in input_wells.flatten()]
 
         return numpy.array(derandomized_output_wells).reshape(wells_shape)
